@@ -656,7 +656,11 @@ def elReplace (old new newName : Nat) : M Unit := do
   if k.name != newName then throw .wrongElement
   let a ← get
   if !a.unordered.contains old then throw .notAChild
-  set { a with unordered := a.unordered.map fun c => if c == old then new else c }
+  -- `index(old)`, `remove`, `insert`: the first occurrence only
+  let rec replFirst : List Nat → List Nat
+    | [] => []
+    | c :: r => if c == old then new :: r else c :: replFirst r
+  set { a with unordered := replFirst a.unordered }
   modK new fun c => { c with name := newName, pxe := k.pxe, par := true }
   match k.pxe with
   | some leaf => modN leaf fun x => { x with elems := x.elems.map fun c => if c == old then new else c }
